@@ -1,1 +1,277 @@
 //! Reference model `poseidon_ref` (independent of the code under test).
+//!
+//! Textbook Poseidon over Goldilocks (width 12, 4 + 22 + 4 rounds, S-box x^7, per round:
+//! add round constants -> S-box (all lanes in full rounds, lane 0 in partial rounds) -> MDS),
+//! the overwrite-mode sponge built on it (rate 8, capacity 4), and a duplex-sponge model of
+//! the Fiat-Shamir challenger. Everything works on canonical residues with u128 arithmetic.
+//!
+//! The round constants are read from the crate's public specification array
+//! (`ALL_ROUND_CONSTANTS`); the MDS vectors are embedded here. `self_check` validates the
+//! whole reference against the four published test vectors.
+
+pub const P: u64 = 0xFFFF_FFFF_0000_0001;
+pub const WIDTH: usize = 12;
+pub const RATE: usize = 8;
+pub const HALF_FULL: usize = 4;
+pub const N_PARTIAL: usize = 22;
+pub const N_ROUNDS: usize = 2 * HALF_FULL + N_PARTIAL;
+
+/// Published MDS description: M = circulant(first row CIRC) + diag(DIAG).
+pub const MDS_CIRC: [u64; 12] = [17, 15, 41, 16, 2, 28, 13, 13, 39, 18, 34, 20];
+pub const MDS_DIAG: [u64; 12] = [8, 0, 0, 0, 0, 0, 0, 0, 0, 0, 0, 0];
+
+pub type State = [u64; WIDTH];
+
+#[inline]
+pub fn red(x: u128) -> u64 {
+    (x % (P as u128)) as u64
+}
+#[inline]
+pub fn addm(a: u64, b: u64) -> u64 {
+    red(a as u128 + b as u128)
+}
+#[inline]
+pub fn mulm(a: u64, b: u64) -> u64 {
+    red((a % P) as u128 * (b % P) as u128)
+}
+#[inline]
+pub fn canon(s: &State) -> State {
+    s.map(|x| x % P)
+}
+
+/// Round constant `i` of round `round` (specification data, read from the public array).
+#[inline]
+pub fn rc(round: usize, i: usize) -> u64 {
+    plonky2::hash::poseidon::ALL_ROUND_CONSTANTS[round * WIDTH + i] % P
+}
+
+pub fn pow7(x: u64) -> u64 {
+    let x = x % P;
+    let mut acc = 1u64;
+    for _ in 0..7 {
+        acc = mulm(acc, x);
+    }
+    acc
+}
+
+pub fn constant_layer(s: &State, round: usize) -> State {
+    let mut o = [0u64; WIDTH];
+    for i in 0..WIDTH {
+        o[i] = addm(s[i] % P, rc(round, i));
+    }
+    o
+}
+
+pub fn sbox_layer(s: &State) -> State {
+    s.map(pow7)
+}
+
+/// out[r] = sum_c M[r][c] * s[c] with M[r][c] = CIRC[(c - r) mod 12] + (r == c) * DIAG[r].
+pub fn mds_layer(s: &State) -> State {
+    let mut o = [0u64; WIDTH];
+    for r in 0..WIDTH {
+        let mut acc: u128 = 0;
+        for c in 0..WIDTH {
+            let mut m = MDS_CIRC[(c + WIDTH - r) % WIDTH] as u128;
+            if r == c {
+                m += MDS_DIAG[r] as u128;
+            }
+            acc += m * (s[c] % P) as u128; // < 12 * 2^7 * 2^64
+        }
+        o[r] = red(acc);
+    }
+    o
+}
+
+pub fn full_round(s: &State, round: usize) -> State {
+    mds_layer(&sbox_layer(&constant_layer(s, round)))
+}
+
+pub fn partial_round(s: &State, round: usize) -> State {
+    let mut t = constant_layer(s, round);
+    t[0] = pow7(t[0]);
+    mds_layer(&t)
+}
+
+/// Rounds `from..to` of the schedule (full for 0..4 and 26..30, partial in between).
+pub fn rounds(s: &State, from: usize, to: usize) -> State {
+    let mut st = canon(s);
+    for r in from..to {
+        st = if (HALF_FULL..HALF_FULL + N_PARTIAL).contains(&r) {
+            partial_round(&st, r)
+        } else {
+            full_round(&st, r)
+        };
+    }
+    st
+}
+
+/// The permutation.
+pub fn permute(s: &State) -> State {
+    rounds(s, 0, N_ROUNDS)
+}
+
+// ------------------------------------------------------------------------------------------
+// Overwrite-mode sponge
+// ------------------------------------------------------------------------------------------
+
+/// Absorb `inputs` in chunks of RATE by overwriting the first lanes, permuting after each
+/// chunk; then squeeze RATE lanes at a time, permuting between squeezes. `m >= 1`.
+pub fn hash_n_to_m_no_pad_with(perm: &dyn Fn(&State) -> State, inputs: &[u64], m: usize) -> Vec<u64> {
+    assert!(m >= 1);
+    let mut st = [0u64; WIDTH];
+    for chunk in inputs.chunks(RATE) {
+        for (i, &x) in chunk.iter().enumerate() {
+            st[i] = x % P;
+        }
+        st = perm(&st);
+    }
+    let mut out = Vec::with_capacity(m);
+    loop {
+        for i in 0..RATE {
+            out.push(st[i]);
+            if out.len() == m {
+                return out;
+            }
+        }
+        st = perm(&st);
+    }
+}
+
+pub fn hash_n_to_m_no_pad(inputs: &[u64], m: usize) -> Vec<u64> {
+    hash_n_to_m_no_pad_with(&permute, inputs, m)
+}
+
+pub fn hash_no_pad(inputs: &[u64]) -> [u64; 4] {
+    hash_n_to_m_no_pad(inputs, 4).try_into().unwrap()
+}
+
+/// pad10*1 to a multiple of RATE: append 1, then zeros, then a final 1.
+pub fn pad101(inputs: &[u64]) -> Vec<u64> {
+    let mut v = inputs.to_vec();
+    v.push(1);
+    while v.len() % RATE != RATE - 1 {
+        v.push(0);
+    }
+    v.push(1);
+    v
+}
+
+pub fn hash_pad(inputs: &[u64]) -> [u64; 4] {
+    hash_no_pad(&pad101(inputs))
+}
+
+pub fn two_to_one(l: &[u64; 4], r: &[u64; 4]) -> [u64; 4] {
+    let mut st = [0u64; WIDTH];
+    st[..4].copy_from_slice(l);
+    st[4..8].copy_from_slice(r);
+    let o = permute(&st);
+    [o[0], o[1], o[2], o[3]]
+}
+
+/// Up to 4 elements are returned as they are (zero padded); longer inputs are hashed.
+pub fn hash_or_noop(inputs: &[u64]) -> [u64; 4] {
+    if inputs.len() <= 4 {
+        let mut o = [0u64; 4];
+        for (i, &x) in inputs.iter().enumerate() {
+            o[i] = x % P;
+        }
+        o
+    } else {
+        hash_no_pad(inputs)
+    }
+}
+
+// ------------------------------------------------------------------------------------------
+// Duplex model of the challenger
+// ------------------------------------------------------------------------------------------
+
+/// Duplex sponge: pending inputs overwrite the rate lanes at the next duplexing; each duplexing
+/// makes the RATE rate lanes available as outputs, handed out from the last lane downwards;
+/// absorbing anything invalidates the outputs still available.
+pub struct Duplex<'a> {
+    pub perm: &'a dyn Fn(&State) -> State,
+    pub state: State,
+    pub pending: Vec<u64>,
+    pub avail: usize,
+    pub permutations: u64,
+}
+
+impl<'a> Duplex<'a> {
+    pub fn new(perm: &'a dyn Fn(&State) -> State) -> Self {
+        Duplex { perm, state: [0; WIDTH], pending: vec![], avail: 0, permutations: 0 }
+    }
+    fn duplex(&mut self) {
+        for (i, x) in self.pending.drain(..).enumerate() {
+            self.state[i] = x % P;
+        }
+        self.state = (self.perm)(&self.state);
+        self.permutations += 1;
+        self.avail = RATE;
+    }
+    pub fn observe(&mut self, x: u64) {
+        self.avail = 0;
+        self.pending.push(x);
+        if self.pending.len() == RATE {
+            self.duplex();
+        }
+    }
+    pub fn challenge(&mut self) -> u64 {
+        if !self.pending.is_empty() || self.avail == 0 {
+            self.duplex();
+        }
+        self.avail -= 1;
+        self.state[self.avail]
+    }
+    /// Flush pending inputs, drop available outputs, expose the full sponge state.
+    pub fn compact(&mut self) -> State {
+        if !self.pending.is_empty() {
+            self.duplex();
+        }
+        self.avail = 0;
+        self.state
+    }
+}
+
+// ------------------------------------------------------------------------------------------
+// Published test vectors (hadeshash reference implementation, as quoted by the plonky2 tests)
+// ------------------------------------------------------------------------------------------
+
+const NEG1: u64 = P - 1;
+
+#[rustfmt::skip]
+pub const TEST_VECTORS: [([u64; 12], [u64; 12]); 4] = [
+    ([0, 0, 0, 0, 0, 0, 0, 0, 0, 0, 0, 0],
+     [0x3c18a9786cb0b359, 0xc4055e3364a246c3, 0x7953db0ab48808f4, 0xc71603f33a1144ca,
+      0xd7709673896996dc, 0x46a84e87642f44ed, 0xd032648251ee0b3c, 0x1c687363b207df62,
+      0xdf8565563e8045fe, 0x40f5b37ff4254dae, 0xd070f637b431067c, 0x1792b1c4342109d7]),
+    ([0, 1, 2, 3, 4, 5, 6, 7, 8, 9, 10, 11],
+     [0xd64e1e3efc5b8e9e, 0x53666633020aaa47, 0xd40285597c6a8825, 0x613a4f81e81231d2,
+      0x414754bfebd051f0, 0xcb1f8980294a023f, 0x6eb2a9e4d54a9d0f, 0x1902bc3af467e056,
+      0xf045d5eafdc6021f, 0xe4150f77caaa3be5, 0xc9bfd01d39b50cce, 0x5c0a27fcb0e1459b]),
+    ([NEG1, NEG1, NEG1, NEG1, NEG1, NEG1, NEG1, NEG1, NEG1, NEG1, NEG1, NEG1],
+     [0xbe0085cfc57a8357, 0xd95af71847d05c09, 0xcf55a13d33c1c953, 0x95803a74f4530e82,
+      0xfcd99eb30a135df1, 0xe095905e913a3029, 0xde0392461b42919b, 0x7d3260e24e81d031,
+      0x10d3d0465d9deaa0, 0xa87571083dfc2a47, 0xe18263681e9958f8, 0xe28e96f1ae5e60d3]),
+    ([0x8ccbbbea4fe5d2b7, 0xc2af59ee9ec49970, 0x90f7e1a9e658446a, 0xdcc0630a3ab8b1b8,
+      0x7ff8256bca20588c, 0x5d99a7ca0c44ecfb, 0x48452b17a70fbee3, 0xeb09d654690b6c88,
+      0x4a55d3a39c676a88, 0xc0407a38d2285139, 0xa234bac9356386d1, 0xe1633f2bad98a52f],
+     [0xa89280105650c4ec, 0xab542d53860d12ed, 0x5704148e9ccab94f, 0xd3a826d4b62da9f5,
+      0x8a7a6ca87892574f, 0xc7017e1cad1a674e, 0x1f06668922318e34, 0xa3b203bc8102676f,
+      0xfcc781b0ce382bf2, 0x934c69ff3ed14ba5, 0x504688a5996e8f13, 0x401f3f2ed524a2ba]),
+];
+
+/// Check the reference permutation against the published vectors. Err = the reference (or the
+/// specification constants it reads) is wrong: a harness problem, not a property violation.
+pub fn self_check() -> Result<(), String> {
+    for (k, (inp, want)) in TEST_VECTORS.iter().enumerate() {
+        let got = permute(inp);
+        if &got != want {
+            return Err(format!(
+                "poseidon_ref: published test vector {} not reproduced: got {:x?} want {:x?}",
+                k, got, want
+            ));
+        }
+    }
+    Ok(())
+}
